@@ -163,8 +163,11 @@ def run_program(ch: Choices, params: dict, name: str, idx: int = 0) -> dict:
     g = gen.ProgGen(ch, {"max_stmts": params.get("max_stmts", 12), "allow_capture": True})
     prog = g.module(mistake=mistake)
     obs = []
+    # one program in 19 is defined the way `exec`, `python -c` or a plain REPL define it:
+    # its source cannot be retrieved (whatever is reported then must be reported identically)
+    sourceless = idx % 19 == 7
     try:
-        mod = genv.make_module(name, prog["source"])
+        mod = genv.make_module(name, prog["source"], register_source=not sourceless)
     except BaseException as e:  # noqa: BLE001
         return {"obs": [f"defn-error:{type(e).__name__}"], "source": prog["source"],
                 "mistake": mistake, "defs": []}
